@@ -292,6 +292,27 @@ def check_tref(ctx):
     none_ = [s for s in bm if A.const_value(s.value) in (0, 0.0)]
     okf = bool(none_) and "+t_ref is False" in A.term_strings(A.path_condition(none_[0], init))
     ctx.check(R, init, "t_ref=False disables the reference epoch", okf, "the zero epoch is not tied to `t_ref is False`", key="false", nontrivial=False)
+    # who may write: the epoch and its cached TCB MJD change together, in the constructor only
+    n = 0
+    for mn, q, fn in ctx.prog.all_functions():
+        for f in ctx.prog.modules[mn].all_functions.get(q, [fn]):
+            for s in A.walk_local(f):
+                tg = []
+                if isinstance(s, ast.Assign):
+                    for t in s.targets:
+                        tg += list(t.elts) if isinstance(t, (ast.Tuple, ast.List)) else [t]
+                elif isinstance(s, (ast.AugAssign, ast.AnnAssign)):
+                    tg = [s.target]
+                elif isinstance(s, ast.Call) and A.call_name(s) == "setattr" and len(s.args) >= 2 and A.str_const(s.args[1]):
+                    tg = [ast.Attribute(value=s.args[0], attr=A.str_const(s.args[1]), ctx=ast.Store())]
+                for t in tg:
+                    if isinstance(t, ast.Attribute) and t.attr in ("t_ref", "_t_ref_bmjd", "_t_bmjd"):
+                        n += 1
+                        own = mn == DT and q == "RVData.__init__" and canon(t.value) == "self"
+                        ctx.check(R, s, "`%s` is assigned by the RVData constructor only" % A.unparse(t), own,
+                                  "`%s` in %s changes one of the reference epoch / its cached TCB MJD / the cached times after construction: the kernel reads the cached numbers, "
+                                  "the samples carry the attribute, and the two no longer describe the same epoch" % (A.unparse(s)[:60], q), key="writer:%s:%s" % (q, t.attr))
+    ctx.floor(R, n, 4)
     check_phase(ctx, R)
 
 
@@ -359,7 +380,70 @@ def tref_preserved(v):
     return has, okf
 
 
+def check_guess(ctx):
+    R = "C15-GUESS"
+    ctx.rule(R, "RVData.guess_from_table keeps the units supplied with the table: the fall-back rv_unit is attached to a column exactly when rv_unit is given and that column itself "
+                "carries no unit (decided per column, on the column's own unit), for the velocity and the error column alike; t_ref is forwarded.")
+    fn = ctx.prog.func(DT, "RVData.guess_from_table", R)
+    rets = [s for s in A.walk_local(fn) if isinstance(s, ast.Return) and isinstance(s.value, ast.Call) and canon(s.value.func) in ("cls", "RVData")]
+    if len(rets) != 1:
+        ctx.undecided(R, fn, "constructor call", "expected one `return cls(time, rv, err, t_ref=...)`, found %d" % len(rets))
+        return
+    st = rets[0]
+    v = st.value
+    given = A.nnf_of_src("rv_unit is not None")
+    always = A.path_condition(st, fn, inline=False)   # early-exit guards that hold for the rest of the function anyway
+
+    def pc(s_):
+        return [t for t in A.path_condition(s_, fn, inline=False) if t not in always]
+
+    def times_unit(e):
+        if isinstance(e, ast.BinOp) and isinstance(e.op, ast.Mult):
+            if canon(e.right) == "rv_unit":
+                return e.left
+            if canon(e.left) == "rv_unit":
+                return e.right
+        return None
+    n = 0
+    for pos, kw, role in ((1, "rv", "velocity"), (2, "rv_err", "error")):
+        a = A.get_arg(v, pos, kw)
+        if a is None:
+            ctx.violate(R, st, "%s column handed to the constructor" % role, "no %s argument" % kw, key=role + ":missing")
+            continue
+        # alternatives: (condition, value) - from conditional expressions in the argument and from conditional re-bindings `X = X * rv_unit` of the name passed
+        alts = []
+        names = set()
+        for terms, leaf in A.ifexp_terms(a):
+            f = times_unit(leaf)
+            if f is not None:
+                alts.append((A.conj(list(terms)), f, st))
+            elif isinstance(leaf, ast.Name):
+                names.add(leaf.id)
+        for s_ in A.walk_local(fn):
+            if isinstance(s_, ast.Assign) and len(s_.targets) == 1 and isinstance(s_.targets[0], ast.Name) and s_.targets[0].id in names:
+                f = times_unit(s_.value)
+                if f is not None and canon(f) == s_.targets[0].id:
+                    alts.append((A.conj(pc(s_)), f, s_))
+            elif isinstance(s_, ast.AugAssign) and isinstance(s_.target, ast.Name) and s_.target.id in names and isinstance(s_.op, ast.Mult) and canon(s_.value) == "rv_unit":
+                alts.append((A.conj(pc(s_)), s_.target, s_))
+        ctx.check(R, st, "%s: a unit-less column gets the fall-back rv_unit" % role, bool(alts), "rv_unit is never attached to the %s column" % role, key=role + ":fallback")
+        for c, q, at in alts:
+            n += 1
+            nounit = A.nnf_of_src("(%s).unit is u.one" % A.unparse(q))
+            notnone = A.nnf_of_src("(%s) is not None" % A.unparse(q))
+            ok = A.nnf_implies(c, nounit) and A.nnf_implies(c, given)
+            ctx.check(R, at, "%s: rv_unit attached only to a column without a unit of its own" % role, ok,
+                      "under %s the %s column is multiplied by rv_unit although it may carry its own unit (the test must be on this column's unit)" % (A.term_strings([c]), role), key=role + ":attach")
+            full = A.nnf_implies(A.conj([nounit, given, notnone]), c)
+            ctx.check(R, at, "%s: the fall-back is applied whenever the column has no unit and rv_unit is given" % role, full,
+                      "the fall-back for the %s column additionally requires %s" % (role, A.term_strings([c])), key=role + ":fallback-cond")
+    tr = A.get_arg(v, 3, "t_ref")
+    ctx.check(R, st, "t_ref forwarded to the constructor", tr is not None and canon(tr) == "t_ref", "t_ref=%s" % (A.unparse(tr)[:40] if tr is not None else "missing"), key="t_ref", nontrivial=False)
+    ctx.floor(R, n, 2)
+
+
 def run(ctx):
+    check_guess(ctx)
     check_lock(ctx)
     check_ivar(ctx)
     check_tref(ctx)
